@@ -19,6 +19,8 @@ pub struct ChunkyReader<'a> {
     pub calls: usize,
     /// fail the k-th source call (0-based) with ErrorKind::Other
     pub fail_at: Option<usize>,
+    /// once failed, every later source call fails too
+    pub fail_sticky: bool,
     pub failed: bool,
     /// Read::read returns at most this many bytes per call (short reads)
     pub read_max: Option<usize>,
@@ -35,6 +37,7 @@ impl<'a> ChunkyReader<'a> {
             stops: Vec::new(),
             calls: 0,
             fail_at: None,
+            fail_sticky: false,
             failed: false,
             read_max: None,
         }
@@ -54,7 +57,7 @@ impl<'a> ChunkyReader<'a> {
     fn tick(&mut self) -> io::Result<()> {
         let k = self.calls;
         self.calls += 1;
-        if self.fail_at == Some(k) {
+        if self.fail_at == Some(k) || (self.fail_sticky && self.failed) {
             self.failed = true;
             return Err(io::Error::new(io::ErrorKind::Other, "injected read fault"));
         }
